@@ -30,25 +30,25 @@ CLAIMED = {
     ),
     "C10": (
         "proptest-generated full-node simulations with a catalogue of hostile, partly validly signed inputs on all five interfaces; panic hook + functional liveness probes",
-        "Generated-input search: up to 40 hostile messages per case (junk, extreme-slot votes, malformed certificates, Byzantine-leader-signed blocks incl. u64::MAX-adjacent windows, crafted odd-sized shreds, mutated shreds, repair traffic, oversized transactions) injected into running full nodes; no panic anywhere in the process, finalisation resumes, repair responder still answers; a repair-traffic guard turns message storms into a reported signature.",
-        "one Byzantine validator; 4..=6 validators; paused clock",
+        "Generated-input search: up to 40 hostile messages per case (junk, extreme-slot votes, malformed certificates, Byzantine-leader-signed blocks incl. u64::MAX-adjacent windows, crafted odd-sized shreds, mutated shreds, repair traffic, oversized transactions) injected into running full nodes; no panic anywhere in the process, finalisation resumes (Byzantine stake 14-17 %), repair responder still answers; a repair-traffic guard turns message storms into a reported signature. A quarter of the cases are client floods towards one correct validator (slice-filling bursts over every free-space residue, oversized transactions, optional sustained drip): an observer blockstore must reconstruct every block the validator disseminates, the blocks must carry exactly the admissible transactions in order, and the validator must keep producing all blocks of its windows.",
+        "one Byzantine validator (< 20 % stake) or none (client floods); 4..=6 validators; paused clock, all node timers virtual (clock hook), repair peers chosen deterministically by the switch",
         "DESIGN.md §5 C10",
     ),
     "C12": (
         "proptest wire-level mutation of genuine shreds under four cache modes, store scenarios through the node's validate-then-store path, plus a full-node equivocation scenario",
-        "Generated-input search: a shred is authentic iff it equals, header + position + payload + proof, a shred of one of the versions the leader signed in the case; every other mutation must be refused; conflicting versions must yield Equivocation / one InvalidBlock; nothing that passed validation for a correct leader's slice may implicate it; one case in 64 runs full nodes shown two versions of a slice.",
+        "Generated-input search: a shred is authentic iff it equals, header + position + payload + proof, a shred of one of the versions the leader signed in the case; every other mutation must be refused; conflicting versions must yield Equivocation / one InvalidBlock; nothing that passed validation for a correct leader's slice may implicate it; Shred::verify_path_only accepts exactly genuine (payload, index, path) in every slice; one case in 64 runs full nodes shown two versions of a slice.",
         "Ed25519 / SHA-256; tag and signature bytes are covered by the no-false-flag clause",
         "DESIGN.md §5 C12",
     ),
     "C13": (
         "proptest block shapes x delivery orders x Byzantine-signed malformations against recomputed double-Merkle root and exactly-once event oracles; fast-path differential",
-        "Generated-input search over 1..=40-slice blocks, delivery orders with duplicates and withheld shreds, delivery through the node's cached-commitment path with garbled signatures, and eight kinds of malformed content placed anywhere (also after the block completed).",
+        "Generated-input search over 1..=40-slice blocks, delivery orders with duplicates and withheld shreds, delivery through the node's cached-commitment path with garbled signatures, optimistic-handover parents in earlier slots or in the same slot, and nine kinds of malformed content (incl. almost-decodable transaction lists) placed anywhere (also after the block completed).",
         "store fed as consensus.rs feeds it",
         "DESIGN.md §5 C13",
     ),
     "C14": (
         "proptest scripted-peer simulations of the real Repair loop and the real RepairRequestHandler on a paused clock; integrity / progress oracles and responder probes",
-        "Generated-input search over block shapes and per-request reaction scripts (12 reaction kinds incl. Byzantine-leader-signed variants) with a fairness bound; whenever a block is held or announced under an id its hash equals the id; the repair completes within the retry budget; every responder answer verifies against the block hash.",
+        "Generated-input search over block shapes and per-request reaction scripts (12 reaction kinds incl. Byzantine-leader-signed variants) with a fairness bound; whenever a block is held or announced under an id its hash equals the id; the repair completes within the retry budget (also when the requester already holds disseminated shreds of the leader's other block for the slot); every responder answer verifies against the block hash, whichever way the responder came to hold the block (dissemination, repair first then dissemination, repair only, mixed).",
         "fairness premise of the property; the three peers addressed per request are played by one scripted respondent (request amplification is a C10 finding)",
         "DESIGN.md §5 C14",
     ),
@@ -66,7 +66,7 @@ CLAIMED = {
     ),
     "C06": (
         "proptest interleavings of votes, own votes, block registrations and parent certificates against a predicate model evaluated after every call",
-        "Generated-input search over the four trigger kinds in generated order with threshold-exact stakes; after every pool call the two predicates of the statement are recomputed from the accepted history and the emitted events must equal the newly true predicates (only-if, at most once, as soon as).",
+        "Generated-input search over the four trigger kinds in generated order with threshold-exact stakes; after every pool call the two predicates of the statement are recomputed from the accepted history and the emitted events must equal the newly true predicates (only-if, at most once, as soon as); a sibling of a parent in the same slot may be certified instead of it.",
         "genesis / pruned parents have no certificate the node holds; own fallback votes follow the own initial vote; cases end when a child slot is finalised",
         "DESIGN.md §5 C06",
     ),
@@ -96,25 +96,25 @@ CLAIMED = {
     ),
     "C17": (
         "proptest over all twelve shipped sampling strategies with boundary stake patterns; exact-integer floor oracle, determinism and two-instance agreement",
-        "Generated-input search over validator counts up to 2000, stake patterns that land exactly on seat boundaries, committee sizes and seeds; construction panics are keyed by (strategy, message) and listed as known findings so that the search continues behind them.",
+        "Generated-input search over validator counts up to 2000, stake patterns that land exactly on seat boundaries, committee sizes and seeds; drawing a committee must leave no state behind (a later single draw equals a fresh instance's); construction panics are keyed by (strategy, message) and listed as known findings so that the search continues behind them.",
         "statistical quality is out of scope; decaying-acceptance cases stay in the documented operating range",
         "DESIGN.md §5 C17",
     ),
     "C19": (
         "proptest wire-level builders for every message type + byte mutation + arbitrary bytes; round-trip / stability / rejection oracles; real loopback UDP for the transport decoder",
-        "Generated-input search: canonical encodings built independently of the crate's encoder must decode and re-encode identically, accessors must agree, out-of-range indices / oversized masks / trailing bytes must be rejected, anything decodable must re-encode stably, emitted messages must fit 1500 bytes; a few hundred cases per run go through UdpNetwork::receive on loopback.",
+        "Generated-input search: canonical encodings built independently of the crate's encoder must decode and re-encode identically, accessors must agree, out-of-range indices / oversized masks / trailing bytes must be rejected, anything decodable must re-encode stably, emitted messages must fit 1500 bytes; about a hundred cases per quick run send bursts of valid, junk-suffixed and empty datagrams to a receiving UdpNetwork on loopback, which must deliver exactly the valid ones, once, in order and unaltered.",
         "loopback UDP available (otherwise those cases are labelled unavailable, never a violation)",
         "DESIGN.md §5 C19",
     ),
     "C20": (
         "proptest stateful op sequences over a forest of forks against BTreeMap models; reference fold for the placeholder engine",
-        "Generated-input search with adversarially clustered keys (prefixes shared up to 255 bits, differences on 5-bit chunk boundaries), forks, empty values; every op's return value, ordered iteration, isolation, structural equality and the incrementally observed commitment are compared with per-fork BTreeMap models; engine commitments are compared with a reference fold over the parent's reported commitment.",
+        "Generated-input search with adversarially clustered keys (prefixes shared up to 255 bits, differences on 5-bit chunk boundaries), forks, empty values; every op's return value, ordered iteration, isolation, structural equality and the incrementally observed commitment are compared with per-fork BTreeMap models; engine commitments are compared with a reference fold over the parent's reported commitment, including blocks begun again while in progress.",
         "SHA-256 trusted; at most one pending block per slot and no ambiguous parent hashes (as the trait documents)",
         "DESIGN.md §5 C20",
     ),
     "C15": (
         "proptest generated trees + mutation of (leaf, index, root, proof) against an independent reference Merkle tree (semantic truth model)",
-        "Generated-input search: every tuple derived from a real tree by 0..3 mutations is decided by an independent reference tree over the padded leaf list (exact iff-oracle for check_proof and check_proof_last, incl. subtree roots); shrunk counterexample on failure. Right level because the property is a pure function over inputs with an executable exact oracle.",
+        "Generated-input search: every tuple derived from a real tree by 0..3 mutations is decided by an independent reference tree over the padded leaf list (exact iff-oracle for check_proof and check_proof_last, incl. subtree roots); 12 % of the cases are virtual trees of height 0..=40 defined by a leaf, an index and a sibling path (honest tuples verify iff height <= 32, altered ones never); shrunk counterexample on failure. Right level because the property is a pure function over inputs with an executable exact oracle.",
         "SHA-256 collision resistance; leaf counts <= 4097; proptest RNG seeded from VERIF_SEED",
         "DESIGN.md §5 C15",
     ),
